@@ -7,6 +7,7 @@ launcherfinder/specs.py and the C18 theorems are re-checked against it;
 `parser.parse`, `&`, `*` and to the Lean model (`Drive/C18.lean`).
 Monitors (implementation only) state the property directly on real objects."""
 import copy
+import json
 import time
 
 from .. import common
@@ -239,6 +240,73 @@ def satisfies(host, req):
     return None
 
 
+_REG = {}
+_REG_DIR = []
+
+
+class FoundLauncher:
+    """what the find_launcher function of the generated launchers.py returns: remembers the requirement that matched"""
+    _cls = None
+
+    @classmethod
+    def make(cls, spec):
+        if cls._cls is None:
+            from experimaestro.launchers import Launcher
+
+            class L(Launcher):
+                def __init__(self, spec):
+                    self.spec = spec
+
+                def scriptbuilder(self):
+                    raise NotImplementedError()
+            cls._cls = L
+        return cls._cls(spec)
+
+
+def _find_on(hostjson, spec, tags):
+    H = real_host(json.loads(hostjson))
+    return FoundLauncher.make(spec) if spec.match(H) else None
+
+
+def registry_for(host):
+    """LauncherRegistry(config dir) — the public constructor — for a configuration directory whose launchers.py describes `host`"""
+    import atexit
+    import shutil
+    import tempfile
+    from pathlib import Path
+    from experimaestro.launcherfinder.registry import LauncherRegistry
+    key = json.dumps(host, sort_keys=True)
+    if key not in _REG:
+        if not _REG_DIR:
+            _REG_DIR.append(Path(tempfile.mkdtemp(prefix="xv-c18-cfg-")))
+            atexit.register(shutil.rmtree, str(_REG_DIR[0]), True)
+        d = _REG_DIR[0] / f"h{len(_REG)}"
+        d.mkdir()
+        (d / "launchers.py").write_text("from xv.props import c18 as _H\nHOST = " + repr(key) + "\n\n\ndef find_launcher(requirements, tags=set()):\n"
+                                        "    return _H._find_on(HOST, requirements, tags)\n")
+        _REG[key] = LauncherRegistry(d)
+    return _REG[key]
+
+
+def near_capacity_requests(host):
+    """(value, object) requests around what the host offers: the largest GPU memory exactly, and a few MB more (differences
+    far below what a human-readable rendering of the sizes shows)"""
+    S = _S()
+    out = []
+    if host["cuda"]:
+        m = max(c["memory"] for c in host["cuda"])
+        for mem in (m, m + 4_000_000):
+            if mem > 0:
+                ro = S.cuda_gpu(mem=str(mem))
+                out.append((val(ro), ro))
+    cm = host["cpu"]["memory"]
+    if cm > 0:
+        for mem in (cm, cm + 3_000_000):
+            ro = S.cpu(mem=str(mem))
+            out.append((val(ro), ro))
+    return out
+
+
 def impl_match_case(ctx, host, reqvals, reqobjs, alts=None):
     """runs match / union / registry.find on the real code; applies the monitors; returns canonical output"""
     S = _S()
@@ -272,24 +340,24 @@ def impl_match_case(ctx, host, reqvals, reqobjs, alts=None):
     if (union is None) != (first is None) or (union is not None and union[1] != first):
         ctx.monitor_fail("union-order", f"alternatives {reqvals} on host {host}: union picked {union}, first matching alternative is {first}",
                          {"op": "union", "host": host, "reqs": reqvals})
-    # LauncherRegistry.find tries the alternatives in the order given
-    from experimaestro.launcherfinder.registry import LauncherRegistry
-    from experimaestro.launchers import Launcher
-
-    class L(Launcher):
-        def __init__(self, spec):
-            self.spec = spec
-
-        def scriptbuilder(self):
-            raise NotImplementedError()
-
-    reg = LauncherRegistry.__new__(LauncherRegistry)
-    reg.find_launcher_fn = lambda spec, tags: (L(spec) if spec.match(H) else None)
+    # LauncherRegistry.find tries the alternatives in the order given (a registry built by its public constructor over a
+    # configuration directory whose launchers.py describes this host; one registry per host, asked again and again)
+    reg = registry_for(host)
     found = reg.find(*reqobjs)
-    fidx = None if found is None else next(i for i, ro in enumerate(reqobjs) if ro is found.spec)
+    fidx = None if found is None else next((i for i, ro in enumerate(reqobjs) if ro is found.spec), "other")
     if fidx != first:
         ctx.monitor_fail("find-order", f"LauncherRegistry.find picked alternative {fidx}, first matching is {first}",
                          {"op": "find", "host": host, "reqs": reqvals})
+    # … then two more lookups on the same registry, just below and just above what the host offers
+    for rv2, ro2 in near_capacity_requests(host):
+        f2 = reg.find(ro2)
+        why = satisfies(host, rv2)
+        ctx.count("find_near_capacity", "found" if f2 is not None else "none")
+        if f2 is not None and why:
+            ctx.monitor_fail(f"find-unsound:{why}", f"LauncherRegistry.find returned a launcher for request {rv2} on host {host} although the host lacks {why} "
+                                                    f"(the registry had answered other requests before)", {"op": "find-near", "host": host, "req": rv2})
+        # (the property is one-directional: a launcher is returned ONLY IF the host satisfies the request; the converse is not claimed —
+        # GPUs are paired by rank and a host GPU may refuse small requests)
     return {"each": each, "union": union}
 
 
